@@ -341,6 +341,18 @@ def leaf_contracts():
         covers={"zero_equals_zero": "%s == 0 and self.match == True" % a_},
         returns="none", inline=INL + ["Equality.left", "Equality.right", "Equals._is_float"],
         property_clauses={"numeric_equality": "C01"}, **{k: v for k, v in base.items() if k != "inline"}))
+    cs.append(Contract(
+        target=f"{FN}/math/equals.py::Equals._decide_match", variant="two_texts",
+        types={"skip": "none", "self.children": "fixed[obj:Equality]", "self.children.0.children": "fixed[obj:Matchable,obj:Matchable]", "self.children.0.op": "str", "self.match": "val",
+               "self.children.0.children.0.g_value": "str", "self.children.0.children.1.g_value": "str"},
+        modifies=["self.match", "self.children.0.children.0.g_to_value_calls", "self.children.0.children.1.g_to_value_calls"],
+        ensures={"a_blank_never_equals_a_non_blank": "implies((%s == '') != (%s == ''), self.match is False)" % (a_, b_),
+                 "different_texts_are_equal_only_as_numbers": "implies(%s != %s and self.match is True, float_of(%s) == float_of(%s))" % (a_, b_, a_, b_),
+                 "a_bool": "self.match is True or self.match is False"},
+        covers={"same_text": "%s == 'ab' and %s == 'ab' and self.match is True" % (a_, b_)},
+        returns="none", inline=INL + ["Equality.left", "Equality.right", "Equals._is_float"],
+        property_clauses={"a_blank_never_equals_a_non_blank": "C01", "different_texts_are_equal_only_as_numbers": "C01"}, **{k: v for k, v in base.items() if k != "inline"},
+        assumptions=["float(text) is an uninterpreted function of the text with an uninterpreted 'parses' predicate: 'nan'/'inf' texts are not distinguished (equals('nan','nan') is False natively)"]))
     # ---- exists(), empty(x)
     cs.append(Contract(target=f"{EU}::ExpressionUtility.is_empty", interface=True, types={"v": "val"}, ensures={"fn": "result == ufun_bool('is_empty', v)"}, returns="bool", class_fields=CF,
                        assumptions=["ExpressionUtility.is_empty(v) is a function of v only (None, 'None', 'nan', blank strings, empty containers: bounded in C01.bounded / C03.bounded)"]))
